@@ -7,13 +7,30 @@ TRUSTED = ['pyvc (VC generator, Python semantics of the stated subset)', 'z3 5.1
            'LEMMA sum-zero-tail (finite sums; induction)',
            'contracts/c17_obligations.py: symbolic execution of the straight-line builder tails (ast + sympy), region samples',
            'sympy (term equality), scipy.stats / scipy.integrate.quad and the decimal module (oracles of the bounded stand-ins)',
-           'contracts/c17_builders.py: constructors/operators of expression nodes are assumed fresh and effect-free']
+           'round 3: engine extensions pyvc/libext/c05c_tree.py (nodes built under a binder, sum-congruence lemma, hypothesis-subset '
+           'discharge strategy) and pyvc/libext/c17d_ext.py (re-typing of an untyped operand by ENTAILMENT from the path condition, '
+           "`lst += [x]` as append, f'{s}' of a string, float()/isinstance() facts for untyped numbers, unfolding of sums over list "
+           'displays, separate paths for the default-parameter loop), spec functions specs/c05c_specs.py, specs/c17d_specs.py']
 ASSUMPTIONS = ['A-REAL: floats are mathematical reals',
                'A-NLA-UF: products of two symbolic reals are an uninterpreted commutative function with 0/1 laws',
                'A-NODE (C01): Expression operators denote real arithmetic, comparisons 0/1 indicators, exp/log the real functions, '
                'Elem selection, bioMultSum a sum (used by the static tree == textbook obligations; checked natively by the bounded stand-ins)',
-               'piecewise builders under contract: `variable` given by name (str), coefficients given (not None), thresholds well formed, '
-               'not a single threshold; frame of piecewise_variables decided by C17:static:piecewise_variables:mutates-only-own-list']
+               'piecewise builders under contract: at least two thresholds (a single threshold is outside the documented use); coefficients '
+               'are Expression objects (plain numbers as coefficients: bounded stand-in); frame of piecewise_variables decided by '
+               'C17:static:piecewise_variables:mutates-only-own-list',
+               'round 3 value semantics: the value c05c_val(e) of a tree is the abstract (pure, trusted) Expression.get_value; nodes are '
+               'immutable once built; DISPATCH LINK: the value of a node of known class K is what the verified contract of K.get_value says; '
+               'operator overloads / validate_and_convert are applied as pure contracts (allocation abstracted)',
+               'A-VARIABLE: the value of a Variable node is VARVAL(its name), the value of that data column in the current row (Variable has no '
+               'Python get_value; specs/c17d_specs.py); LEMMA sum-congruence (induction): sums with pointwise equal terms are equal',
+               'A-TOTAL-VALUE: every operand has a value (get_value does not raise): the argument checks of the distributions '
+               '(`try: v = e.get_value() except NotImplementedError: v = None`) are decided on the value; natively they are skipped for an '
+               'operand without a Python value (bounded stand-ins)',
+               'x ** y, exp, log are uninterpreted over the reals (term equality); the coded literals 2.506628275 and 0.9189385332 are '
+               'compared exactly, their distance from sqrt(2 pi) and log(2 pi)/2 is decided by the static obligations',
+               'default parameters of piecewise_formula / piecewise_as_variable (betas=None): only safety (no exception, indexing) is proved, '
+               'their value stays bounded; boxcox / loglikelihoodregression under contract for Expression arguments; '
+               'Segmentation.segmented_beta stays bounded (<= 3 x 4)']
 EXPLANATION = ('piecewise_function is proved equal to the documented closed form for all arguments, threshold lists and '
                'coefficient lists (unbounded, loop invariant over a recursive sum).  piecewise_variables is proved to return one variable per '
                'interval without TypeError/IndexError for every well-formed threshold list, piecewise_formula / piecewise_as_variable to refuse '
@@ -22,9 +39,18 @@ EXPLANATION = ('piecewise_function is proved equal to the documented closed form
                'symbolically, region by region, for all real values (static, ast + sympy; constants within 1e-9), and the textbook densities are '
                'integrated to one symbolically (lemma, sympy).  Values of all builders '
                '(piecewise K<=6, Box-Cox around the switching point, densities on grids and their integrals, segmentations <= 3 x 4, '
-               'nested-logit correlations and their labels) are decided by bounded stand-ins on the real code, labelled bounded.')
+               'nested-logit correlations and their labels) are decided by bounded stand-ins on the real code, labelled bounded.  '
+               'Round 3 (contracts/c17d_*.py): the VALUE of the trees is now proved for all inputs on the real node constructors / operator '
+               'overloads (verified contracts of contracts/c05c_nodes.py, re-discharged here, plus bioMin, bioMax, UnaryMinus, the comparison '
+               'nodes, PowerConstant / __pow__, Elem): every variable of piecewise_variables equals max(0, min(x - t_q, t_q+1 - t_q)) (open ends: '
+               'min(x, t_1), max(0, x - t_q)) for every threshold list, x given by name or as a node, malformed input refused exactly; '
+               'piecewise_formula == sum_q value(beta_q) x_q and piecewise_as_variable == x_1 + sum_{q>=2} value(beta_q) x_q for given '
+               'coefficients; boxcox == 0 at x = 0, the McLaurin series iff ell < 1e-5 and ell > -1e-5, (x^ell - 1)/ell otherwise; '
+               'normalpdf, lognormalpdf, uniformpdf, triangularpdf (five regions), logisticcdf and loglikelihoodregression == the textbook '
+               'terms, argument checks raise exactly when documented.')
 LEVEL_TEXT = ('Mixed: deductive proof (all inputs, all list lengths) for piecewise_function and the threshold handling of the three piecewise '
-              'builders; static symbolic comparison (all real values) of the density / Box-Cox / regression trees with the textbook terms; '
+              'builders and (round 3) for the values of the trees built by the piecewise builders (given coefficients), boxcox, the five '
+              'distribution helpers and the regression likelihood, as equalities of terms over uninterpreted exp / log / pow; static symbolic comparison (all real values) of the density / Box-Cox / regression trees with the textbook terms; '
               'bounded stand-ins on the real code with independent oracles (scipy.stats, quadrature, 50-digit decimal arithmetic, closed '
               'forms) for the values, labelled bounded with their bounds and never counted as proved.')
 LEVEL_NOTE = ('Trusted: pyvc, z3/cvc5, floats as reals, the finite-sum lemma, the meaning of expression nodes (C01), sympy; '
@@ -41,4 +67,5 @@ except ImportError:      # pragma: no cover
 
 def extra(tier, seed):
     from contracts.c17_obligations import extras
-    return extras(tier, seed)
+    from contracts.c17d_lemmas import lemma_extras      # round 3: max/min form of the piecewise variables == case form
+    return lemma_extras() + extras(tier, seed)
